@@ -20,4 +20,5 @@ for s in seeds:
         print("%s: check %s -> %s  %s" % (s, s, "CAUGHT" if fired else "MISSED", (first[0][:220] if first else "")))
     finally:
         subprocess.call(["git", "-C", "/repo", "checkout", "--", "."])
+subprocess.call([sys.executable, os.path.join(V, "tools", "gen_all.py")], stdout=subprocess.DEVNULL)   # regenerate coq/gen from the restored tree
 print(json.dumps(res))
